@@ -10,10 +10,12 @@ import (
 func init() { register("C13", propC13) }
 
 func propC13(r *Report, tier string) {
-	r.Explanation = "Structural necessary conditions of 'rollback restores exactly the chosen point': (a) Rollback deletes snapshot buckets inside ONE writable transaction whose Commit (success) / Rollback (failure) and the following Sync are deferred before the first delete; the target epoch is never deleted (the delete is control-dependent on epoch != target); candidates are collected newest-first up to and including the target; (b) RollbackPoints reads each snapshot's internal values through a FileReader built from that snapshot's stored writer id (K11, shared with C03); (c) K7 DeleteBucket occurs only in Rollback and in the purger; the purger always protects the newest snapshot and never deletes a protected epoch (shared with C12); (d) a persisted snapshot describes exactly the state of ITS epoch: the equivalent snapshot persisted after an in-memory merge rebuilds each merged segment with deleted=nil instead of reusing the post-merge root's segment snapshot (which may already carry later batches' deletions); (e) segment ids, and therefore segment file names, are never reissued after a restart: nextSegmentID is derived from the *.zap files on disk (files of retained rollback points included), not from the loaded snapshot; (f) Kerr: in package scorch no error is discarded outside the clean-up set, every stored error is read on some path, and a deferred closure stores an outcome only where the caller can still see it (named result) - this is what reports F13 (Rollback swallowing its commit failure)."
+	r.Explanation = "Structural necessary conditions of 'rollback restores exactly the chosen point': (a) Rollback deletes snapshot buckets inside ONE writable transaction whose Commit (success) / Rollback (failure) and the following Sync are deferred before the first delete; the target epoch is never deleted (the delete is control-dependent on epoch != target); candidates are collected newest-first up to and including the target; (b) RollbackPoints reads each snapshot's internal values through a FileReader built from that snapshot's stored writer id (K11, shared with C03); (c) K7 DeleteBucket occurs only in Rollback and in the purger; the purger always protects the newest snapshot and never deletes a protected epoch (shared with C12); (d) a persisted snapshot describes exactly the state of ITS epoch: the equivalent snapshot persisted after an in-memory merge rebuilds each merged segment with deleted=nil instead of reusing the post-merge root's segment snapshot (which may already carry later batches' deletions); (e) segment ids, and therefore segment file names, are never reissued after a restart: nextSegmentID is derived from the *.zap files on disk (files of retained rollback points included), not from the loaded snapshot; (f) Kerr: in package scorch no error is discarded outside the clean-up set, every stored error is read on some path, and a deferred closure stores an outcome only where the caller can still see it (named result) - this is what reports F13 (Rollback swallowing its commit failure); (g) the purger keeps every file named by ANY bolt snapshot (shared with C12) and every in-memory segment of a persisted epoch lands in exactly one flush group (shared with C03): both are needed for an older rollback point to be loadable and complete."
 	r.NotCovered = "that retained epochs' segment files are intact at run time (C12 under schedules), contents after reopen, retention arithmetic over timestamps"
 	ruleRollbackTx(r, "K5-rollback-one-tx")
 	ruleErrorsLookedAt(r, "Kerr-errors-looked-at", func(rel string) bool { return rel == "index/scorch" }, errAllowScorch)
+	rulePurgerGuards(r, "K5-purger-guards")
+	ruleInMemoryMergeCoverage(r, "K14-memmerge-coverage")
 	ruleBoltKeyAgreement(r, "K11-bolt-keys")
 	ruleDeleteBucketSites(r, "K7-delete-bucket-sites")
 	rulePurgeOrderAndProtection(r, "K5-purge-bolt-first")
